@@ -913,7 +913,9 @@ def scenario_script(i, x, ent, rej=(), attrs=None, flags=None, malformed=(), res
     R = ROOT + "/s%d" % (i % 16)
     t = {"main": x["main"], "drop": x["drop"], "shp": x["shp"]}
     shape = Shape(ent, len(x["main"]))
-    contents = {f: "[broken\nK=1\n" for f in malformed}
+    # a comment is pending when the malformed line is met (before the line and trailing on it): the error path has to
+    # release the pending comment buffers as well
+    contents = {f: "[broken  # trailing\nK=1\n" if (f[0] + f[1]) % 2 else "# pending comment\n# second line\n[broken\nK=1\n" for f in malformed}
     s, paths = materialise(t, shape, R, contents=contents)
     attrs = attrs or {}
     extra = []
